@@ -4,7 +4,8 @@
 REPO="${1:-/repo}"
 export GOFLAGS=-mod=mod GOPROXY=off GOSUMDB=off GOTOOLCHAIN=local
 OUT=$(mktemp /tmp/baseline.XXXXXX.json)
-(cd "$REPO" && go test -json -vet=off -count=1 -timeout 25m ./... > "$OUT" 2>/dev/null)
+# go-mail's tests bind fixed loopback ports: serialise concurrent suite runs on this machine
+(flock 9; cd "$REPO" && go test -json -vet=off -count=1 -timeout 25m ./... > "$OUT" 2>/dev/null) 9>/tmp/gomail-test.lock
 python3 - "$OUT" <<'PY'
 import json,sys
 passed,failed=set(),set()
